@@ -125,6 +125,13 @@ func ndString(name string, max int) string {
 // ndBytesEqual: content equality of two byte strings.
 func ndBytesEqual(a, b []byte) bool { return string(a) == string(b) }
 
+// ndWriteMark / ndWritesSince (symbolic only): number of stores, map updates and in-place
+// appends performed by the code under test on memory that existed at the mark (globals
+// included). Natively 0: the harness runs the operation from many goroutines under the race
+// detector instead.
+func ndWriteMark() int        { return 0 }
+func ndWritesSince(m int) int { return 0 }
+
 // ndPrefer: a soft preference for the counterexample models the solver returns (it never
 // changes a verdict: only WHICH satisfying assignment is reported and replayed).
 func ndPrefer(c bool) {}
@@ -233,7 +240,9 @@ func verifRunCase(c *verifCase) (out []string) {
 	verifCur = c
 	verifFailed = nil
 	verifCovered = nil
-	out = append(out, "VERIF-BEGIN "+c.ID)
+	// (printed at once, so that anything the runtime reports while the case runs, e.g. the race
+	// detector, is attributed to this case)
+	fmt.Println("VERIF-BEGIN " + c.ID)
 	f, ok := verifHarnesses[c.Harness]
 	if !ok {
 		// "<registered name>-<variant>": variants differ only in their parameters
